@@ -89,7 +89,7 @@ def handle (args : List String) : String :=
              permOk := pBool (g "perm_ok"), mask := pBool (g "mask"), qs := pScaling (g "q_sc"),
              ks := pScaling (g "k_sc"), qks := pScaling (g "qk_sc") }
     | "mha" =>
-      mha { past := pBool (g "past"), keyT := pBool (g "key_t"), qPermOk := pBool (g "q_perm_ok"),
+      mha { past := pBool (g "past"), keyT := pBool (g "key_t"), qPermOk := pBool (g "q_perm_ok"), rotary := pBool (g "rotary"),
             scale := pOptFloat (g "scale"), query := pShapeD (g "query"), key := pShapeD (g "key"),
             value := pShapeD (g "value"), q4 := pShapeD (g "q4"), pastKey := pShapeD (g "past_key"),
             pastValue := pShapeD (g "past_value"), mask := pShape (g "mask") }
@@ -104,6 +104,19 @@ def handle (args : List String) : String :=
              weight := pShapeD (g "weight"), projected := pShapeD (g "projected"), qS := pShapeD (g "q_s"),
              kS := pShapeD (g "k_s"), vS := pShapeD (g "v_s"), wq := pShapeD (g "wq"), wk := pShapeD (g "wk"),
              wv := pShapeD (g "wv") }
+    | "gqa" =>
+      gqa { query := pShapeD (g "query"), key := pShapeD (g "key"), value := pShapeD (g "value"),
+            pastKey := pShapeD (g "past_key"), pastValue := pShapeD (g "past_value"), q4 := pShapeD (g "q4"),
+            k4 := pShapeD (g "k4"), ilq := pInt (g "ilq"), ilk := pInt (g "ilk"), maskOk := pBool (g "mask_ok") }
+    | "pqkv" =>
+      pqkv { packed := pShapeD (g "packed"), qS := pShapeD (g "q_s"), kS := pShapeD (g "k_s"), vS := pShapeD (g "v_s"),
+             h := pNat (g "h"), hkv := pNat (g "hkv"), il := pInt (g "il"), sl := pInts (g "sl"),
+             axisOk := pBool (g "axis_ok") }
+    | "mhab" =>
+      mhab { qm := pShapeD (g "qm"), km := pShapeD (g "km"), vm := pShapeD (g "vm"), qbias := pShapeD (g "qbias"),
+             dt := pNat (g "dt"), qb := pBool (g "qb"), kb := pBool (g "kb"), vb := pBool (g "vb"),
+             biasFirst := pBool (g "bias_first"), heads := pNat (g "heads"), pre := pOptFloat (g "pre"),
+             preConst := pBool (g "pre_const"), ascale := pOptFloat (g "ascale"), mask := pBool (g "mask") }
     | _ => "ERR:family"
 
 end OV.Drivers.C19
